@@ -1088,6 +1088,13 @@ func extractFunctionName(expr string) string {
 		return ""
 	}
 
+	// CASE (x) WHEN ... and NOT (x) are keywords followed by a parenthesised operand, not calls
+	// of an unknown (and therefore possibly aggregate) function
+	switch strings.ToUpper(funcName) {
+	case "CASE", "NOT":
+		return ""
+	}
+
 	return funcName
 }
 
